@@ -246,10 +246,11 @@ impl Prop for C15 {
         // loopback captures from other platforms: every address-family word in use, in both byte orders
         let foreign = Framing::NullFamily { fam: *r.pick(&[2u8, 2, 10, 24, 28, 30]), big_endian: r.chance(1, 2) };
         let tagged = Framing::Vlan { tpid: *r.pick(&[0x8100u16, 0x8100, 0x88a8, 0x9100]), tci: r.u16() };
-        let base_framing = *r.pick(&[Framing::Ethernet, Framing::Ethernet, Framing::Ethernet, Framing::RawIp, Framing::RawIp, Framing::Null1e, Framing::NullAf, foreign, tagged]);
+        let cooked = Framing::Sll { pkttype: *r.pick(&[0u8, 0, 4, 1]) };
+        let base_framing = *r.pick(&[Framing::Ethernet, Framing::Ethernet, Framing::Ethernet, Framing::RawIp, Framing::RawIp, Framing::Null1e, Framing::NullAf, foreign, tagged, cooked]);
         let mut conns = vec![];
         for (c, s) in &eps {
-            let framing = if r.chance(1, 6) { *r.pick(&[Framing::Ethernet, Framing::RawIp, Framing::Null1e, Framing::NullAf, foreign, tagged]) } else { base_framing };
+            let framing = if r.chance(1, 6) { *r.pick(&[Framing::Ethernet, Framing::RawIp, Framing::Null1e, Framing::NullAf, foreign, tagged, cooked]) } else { base_framing };
             let o = ConnOpts { v6, framing, max_parts: 3, gap_lo: 50_000, gap_hi: 20_000_000, tls_single_segment: kind == Kind::Unified };
             let ck = super::c07::kinds_for(kind, r);
             let mut c = conn::build(r, ck, *c, *s, &o);
